@@ -12,12 +12,14 @@ the real reductions over the unit axis.  Here, for categorical, linear, PWL and 
 (`*_layer_iff`), hence with the per-column theorems: the layer is accepted iff every covered constraint
 of EVERY unit has slack `≥ −eps` (`*_layer_explicit`).  (Lattice: `C12.lattice_layer_iff`.)
 
-PWL: `PWLCalibration.assert_constraints` judges `keypoints_outputs()` for `learned_interior`
-keypoints (commit 57c7e1f; before, it evaluated the function at the INITIAL `input_keypoints`, F-C12-e,
-`learned_old_assert_witness`) and `call(input_keypoints)` for fixed keypoints.  `pwlLayerOutputs_eq`:
-both are the cumulative sums of the kernel column — for fixed keypoints by C05's node theorem
-(`C05.pwl_value_at_keypoints`), provided no keypoint equals `missing_input_value`
-(otherwise the assert judges `missing_output` instead of that node: F-C12-f, `missing_value_at_keypoint_witness`).
+PWL: `PWLCalibration.assert_constraints` judges `keypoints_outputs()` — for `learned_interior`
+keypoints since 57c7e1f (before, it evaluated the function at the INITIAL `input_keypoints`, F-C12-e,
+`learned_old_assert_witness`), for fixed keypoints since 164b31b (before, it evaluated
+`call(input_keypoints)`, which returns `missing_output` at a keypoint equal to `missing_input_value`,
+F-C12-f, `missing_value_at_keypoint_witness`).  `pwl_layer_iff` therefore needs no hypothesis.
+That these cumulative sums ARE the function's values at its keypoints is C05's node theorem;
+`oldCallOutputs_eq` restates it for the evaluation the layer used to make (the two fixes change
+nothing outside the two recorded classes).
 -/
 namespace Tfl.C12
 open Tfl Tfl.Poset Tfl.Linear Tfl.Asserts
@@ -148,8 +150,25 @@ theorem pwl_outputs_layer_iff (mono : Int) (lo hi : Option Rat) (cmin cmax : Boo
   exact ⟨fun h w hw => ⟨⟨h.1.1 w hw, h.1.2 w hw⟩, h.2 w hw⟩,
     fun h => ⟨⟨fun w hw => (h w hw).1.1, fun w hw => (h w hw).1.2⟩, fun w hw => (h w hw).2⟩⟩
 
+/-- `PWLCalibration.call` for one unit at input `x`, as `assert_constraints` invoked it BEFORE
+164b31b (fixed keypoints): `call([x, zeros])` when imputing without a `missing_input_value`,
+`call(x)` otherwise (`missing_output` where `x == missing_input_value`) -/
+def pwlCallAt (cfg : PwlEval.Cfg) (kernel : List Rat) (mo x : Rat) : Rat :=
+  let result := PwlEval.calibrate cfg kernel [] x
+  if cfg.imputeMissing then
+    match cfg.missingInputValue with
+    | none => 0 * mo + (1 - 0) * result
+    | some v =>
+      let m : Rat := if x = v then 1 else 0
+      m * mo + (1 - m) * result
+  else result
+
+/-- the `outputs` column the layer built before 164b31b for fixed keypoints: `call(input_keypoints)` -/
+def oldCallOutputs (cfg : PwlEval.Cfg) (kernel : List Rat) (mo : Rat) : List Rat :=
+  cfg.inputKeypoints.map (pwlCallAt cfg kernel mo)
+
 /-- the total function `pwlCallAt` is C05's `PwlEval.call` with the arguments
-`assert_constraints` passes (`[x, zeros]` when imputing without a `missing_input_value`) -/
+`assert_constraints` passed (`[x, zeros]` when imputing without a `missing_input_value`) -/
 theorem pwlCallAt_eq_call (cfg : PwlEval.Cfg) (kernel : List Rat) (mo x : Rat) :
     PwlEval.call cfg kernel [] mo x
         (if cfg.imputeMissing && cfg.missingInputValue.isNone then some 0 else none) =
@@ -174,31 +193,32 @@ theorem getR_eq_getElem (l : List Rat) (j : Nat) (hj : j < l.length) : getR l j 
   simp [getR, List.getD, hj]
 
 /-- **C12 (PWL, what the layer judges).** The `outputs` column `PWLCalibration.assert_constraints`
-builds for a unit is `keypoints_outputs()` of that unit's kernel column:
-* `learned_interior` keypoints — by the code (57c7e1f), wherever the learned keypoints have moved;
-* fixed keypoints — because the function passes through its nodes (`C05.pwl_value_at_keypoints`),
-  for every well-formed layer none of whose keypoints equals `missing_input_value`. -/
-theorem pwlLayerOutputs_eq (cfg : PwlEval.Cfg) (kernel : List Rat) (mo : Rat)
-    (hwf : cfg.learned = false → PwlEval.WF cfg kernel [])
-    (hmiss : cfg.learned = false → cfg.imputeMissing = true →
-      ∀ v, cfg.missingInputValue = some v → v ∉ cfg.inputKeypoints) :
-    pwlLayerOutputs cfg kernel mo = PwlEval.keypointsOutputs cfg kernel := by
-  unfold pwlLayerOutputs
-  cases hl : cfg.learned
-  · simp only [Bool.false_eq_true, if_false]
-    have h := hwf hl
-    have hlen := PwlEval.length_keypointsOutputs h
-    have hki := PwlEval.keypointsInputs_fixed h hl
-    apply List.ext_getElem
-    · simp [hlen]
-    · intro j hj1 hj2
-      have hj : j < cfg.inputKeypoints.length := by simpa using hj1
-      rw [List.getElem_map, ← getR_eq_getElem _ j hj2, ← C05.pwl_value_at_keypoints h j hj, hki,
-        getR_eq_getElem _ j hj]
-      apply pwlCallAt_eq_calibrate
-      intro hi hv
-      exact hmiss hl hi _ hv (List.getElem_mem hj)
-  · simp
+builds for a unit IS `keypoints_outputs()` of that unit's kernel column — by the code, for fixed and
+learned keypoints alike (57c7e1f, 164b31b): no hypothesis. -/
+theorem pwlLayerOutputs_eq (cfg : PwlEval.Cfg) (kernel : List Rat) :
+    pwlLayerOutputs cfg kernel = PwlEval.keypointsOutputs cfg kernel := rfl
+
+/-- **C12 (PWL, the judged values are the function's values).** For fixed keypoints, the function
+evaluated at its keypoints (the way the assert did before 164b31b) gives exactly
+`keypoints_outputs()`, because it passes through its nodes (`C05.pwl_value_at_keypoints`) — for every
+well-formed layer none of whose keypoints equals `missing_input_value` (at such a keypoint `call`
+returns `missing_output`: F-C12-f). So 164b31b changes the verdict only in that class. -/
+theorem oldCallOutputs_eq (cfg : PwlEval.Cfg) (kernel : List Rat) (mo : Rat) (hl : cfg.learned = false)
+    (h : PwlEval.WF cfg kernel [])
+    (hmiss : cfg.imputeMissing = true → ∀ v, cfg.missingInputValue = some v → v ∉ cfg.inputKeypoints) :
+    oldCallOutputs cfg kernel mo = pwlLayerOutputs cfg kernel := by
+  unfold oldCallOutputs pwlLayerOutputs
+  have hlen := PwlEval.length_keypointsOutputs h
+  have hki := PwlEval.keypointsInputs_fixed h hl
+  apply List.ext_getElem
+  · simp [hlen]
+  · intro j hj1 hj2
+    have hj : j < cfg.inputKeypoints.length := by simpa using hj1
+    rw [List.getElem_map, ← getR_eq_getElem _ j hj2, ← C05.pwl_value_at_keypoints h j hj, hki,
+      getR_eq_getElem _ j hj]
+    apply pwlCallAt_eq_calibrate
+    intro hi hv
+    exact hmiss hi _ hv (List.getElem_mem hj)
 
 theorem cons_cumsumIncl (b : Rat) (hs : List Rat) : b :: PwlEval.cumsumIncl b hs = prefixSums b hs := by
   induction hs generalizing b with
@@ -222,13 +242,6 @@ theorem keypointsOutputs_cyclic (cfg : PwlEval.Cfg) (kernel : List Rat) (hc : cf
   | nil => simp [hc, PwlEval.cumsumIncl]
   | cons b hs => simp [hc, PwlEval.cumsumIncl, cons_cumsumIncl]
 
-/-- what `verify_hyperparameters` / `build` guarantee for every unit of the layer, plus the exclusion
-of finding F-C12-f (a fixed keypoint equal to `missing_input_value`) -/
-structure PwlLayerWF (cfg : PwlEval.Cfg) (cols : List (List Rat)) : Prop where
-  wf : cfg.learned = false → ∀ col ∈ cols, PwlEval.WF cfg col []
-  miss : cfg.learned = false → cfg.imputeMissing = true →
-    ∀ v, cfg.missingInputValue = some v → v ∉ cfg.inputKeypoints
-
 theorem mem_range_map_getD {α : Type} (cols : List (List Rat)) (f : Nat → α) (P : α → Prop) :
     (∀ a ∈ (List.range cols.length).map f, P a) ↔ ∀ u, u < cols.length → P (f u) := by
   simp [List.mem_map, List.mem_range]
@@ -237,19 +250,18 @@ theorem mem_range_map_getD {α : Type} (cols : List (List Rat)) (f : Nat → α)
 column `keypoints_outputs()` (cumulative sums of that unit's kernel column, closed by the first one
 when cyclic) is accepted by the per-unit test `acceptsPwlOutputs` (spelled out by `pwl_outputs_iff`)
 and, when the missing output is learned, that unit's `missing_output` lies within `eps` of the bounds.
-Holds for fixed AND learned-interior keypoints, cyclic or not. -/
+Holds with NO hypothesis: fixed AND learned-interior keypoints, cyclic or not, any
+`missing_input_value` (since 164b31b). -/
 theorem pwl_layer_iff (mono : Int) (lo hi : Option Rat) (cmin cmax assertMissing : Bool)
-    (cfg : PwlEval.Cfg) (cols : List (List Rat)) (mouts : List Rat) (eps : Rat) (h : PwlLayerWF cfg cols) :
+    (cfg : PwlEval.Cfg) (cols : List (List Rat)) (mouts : List Rat) (eps : Rat) :
     acceptsPwlLayer mono lo hi cmin cmax assertMissing cfg cols mouts eps = true ↔
       ∀ u, u < cols.length →
         acceptsPwlOutputs mono lo hi cmin cmax (PwlEval.keypointsOutputs cfg (cols.getD u [])) eps = true ∧
         (assertMissing = true →
           (∀ l, lo = some l → -eps ≤ getR mouts u - l) ∧ (∀ hh, hi = some hh → -eps ≤ hh - getR mouts u)) := by
   have hout : ∀ u, u < cols.length →
-      pwlLayerOutputs cfg (cols.getD u []) (getR mouts u) = PwlEval.keypointsOutputs cfg (cols.getD u []) := by
-    intro u hu
-    refine pwlLayerOutputs_eq cfg _ _ (fun hl => h.wf hl _ ?_) h.miss
-    simp [List.getD, hu]
+      pwlLayerOutputs cfg (cols.getD u []) = PwlEval.keypointsOutputs cfg (cols.getD u []) :=
+    fun u _ => rfl
   have hm : ∀ v : Rat, acceptsPwlOutputs 0 lo hi false false [v] eps = true ↔
       ((∀ l, lo = some l → -eps ≤ v - l) ∧ (∀ hh, hi = some hh → -eps ≤ hh - v)) := by
     intro v
@@ -273,30 +285,30 @@ theorem pwl_layer_iff (mono : Int) (lo hi : Option Rat) (cmin cmax assertMissing
 /-- **C12 (PWL, all units, non-cyclic).** The layer-level call accepts iff every unit column is accepted
 by the per-column model `acceptsPwl` of `pwl_iff` — "whichever unit is the offender". -/
 theorem pwl_layer_iff_units (mono : Int) (lo hi : Option Rat) (cmin cmax assertMissing : Bool)
-    (cfg : PwlEval.Cfg) (cols : List (List Rat)) (mouts : List Rat) (eps : Rat) (h : PwlLayerWF cfg cols)
+    (cfg : PwlEval.Cfg) (cols : List (List Rat)) (mouts : List Rat) (eps : Rat)
     (hc : cfg.isCyclic = false) :
     acceptsPwlLayer mono lo hi cmin cmax assertMissing cfg cols mouts eps = true ↔
       ∀ u, u < cols.length →
         acceptsPwl mono lo hi cmin cmax (if assertMissing then some (getR mouts u) else none)
           (cols.getD u []) eps = true := by
-  rw [pwl_layer_iff mono lo hi cmin cmax assertMissing cfg cols mouts eps h]
+  rw [pwl_layer_iff mono lo hi cmin cmax assertMissing cfg cols mouts eps]
   refine forall_congr' fun u => forall_congr' fun _ => ?_
   rw [pwl_iff, keypointsOutputs_eq_pwlOutputs cfg _ hc]
   cases assertMissing <;> simp
 
-/-- **C12 (PWL, learned interior keypoints).** No hypothesis at all: wherever the softmax has moved
+/-- **C12 (PWL, learned interior keypoints)** — the special case `cfg.learned = true` of
+`pwl_layer_iff` (kept by name): wherever the softmax has moved
 the keypoints, the layer is judged on the cumulative sums of its kernel columns, i.e. on the
 function's values at its CURRENT keypoints (`C05.pwl_value_at_keypoints`), which bound the whole
 function (`C05.pwl_bounded`, `C05.pwl_monotone_increasing`). -/
 theorem pwl_layer_iff_learned (mono : Int) (lo hi : Option Rat) (cmin cmax assertMissing : Bool)
-    (cfg : PwlEval.Cfg) (cols : List (List Rat)) (mouts : List Rat) (eps : Rat) (hl : cfg.learned = true) :
+    (cfg : PwlEval.Cfg) (cols : List (List Rat)) (mouts : List Rat) (eps : Rat) (_hl : cfg.learned = true) :
     acceptsPwlLayer mono lo hi cmin cmax assertMissing cfg cols mouts eps = true ↔
       ∀ u, u < cols.length →
         acceptsPwlOutputs mono lo hi cmin cmax (PwlEval.keypointsOutputs cfg (cols.getD u [])) eps = true ∧
         (assertMissing = true →
           (∀ l, lo = some l → -eps ≤ getR mouts u - l) ∧ (∀ hh, hi = some hh → -eps ≤ hh - getR mouts u)) :=
   pwl_layer_iff mono lo hi cmin cmax assertMissing cfg cols mouts eps
-    ⟨fun hf => (by rw [hl] at hf; cases hf), fun hf => (by rw [hl] at hf; cases hf)⟩
 
 /-- counter-witness of the defect fixed by 57c7e1f (F-C12-e): learned keypoints moved to
 `[0, 1/10, 1]` (softmax row `[1/10, 9/10]`), kernel `[0, 3/2, −3/2]`, bounds `[0, 1]`. The OLD assert
@@ -312,13 +324,17 @@ theorem learned_old_assert_witness :
     acceptsPwlLayer 0 (some 0) (some 1) false false false cfg [kernel] [0] (1 / 1000000) = false := by
   decide +kernel
 
-/-- counter-witness of finding F-C12-f (the hypothesis `PwlLayerWF.miss` is needed): fixed keypoints
-`[0, 1/2, 1]`, `missing_input_value = 1/2`, kernel `[0, 3/2, −1]` (node outputs `[0, 3/2, 1/2]`),
-`missing_output = 1/2`, bounds `[0, 1]`: the layer-level call accepts (it reads `missing_output` at the
-keypoint `1/2`) although the column violates `output_max` by `1/2`. -/
+/-- witness of the defect fixed by 164b31b (F-C12-f): fixed keypoints `[0, 1/2, 1]`,
+`missing_input_value = 1/2`, kernel `[0, 3/2, −1]` (node outputs `[0, 3/2, 1/2]`), `missing_output = 1/2`,
+bounds `[0, 1]`. The OLD evaluation `call(input_keypoints)` read `missing_output` at the keypoint `1/2`:
+`[0, 1/2, 1/2]`, accepted (so the hypothesis `hmiss` of `oldCallOutputs_eq` is needed); the node output
+`3/2` violates `output_max` by `1/2`: the layer-level model of the fixed code rejects, in agreement with
+the per-column model. -/
 theorem missing_value_at_keypoint_witness :
     let cfg : PwlEval.Cfg := ⟨[0, 1/2, 1], false, false, true, some (1/2)⟩
-    acceptsPwlLayer 0 (some 0) (some 1) false false true cfg [[0, 3/2, -1]] [1/2] (1 / 1000000) = true ∧
+    oldCallOutputs cfg [0, 3/2, -1] (1/2) = [0, 1/2, 1/2] ∧
+    acceptsPwlOutputs 0 (some 0) (some 1) false false [0, 1/2, 1/2] (1 / 1000000) = true ∧
+    acceptsPwlLayer 0 (some 0) (some 1) false false true cfg [[0, 3/2, -1]] [1/2] (1 / 1000000) = false ∧
     acceptsPwl 0 (some 0) (some 1) false false (some (1/2)) [0, 3/2, -1] (1 / 1000000) = false := by
   decide +kernel
 
